@@ -165,7 +165,7 @@ Section Proofs.
   (* ---- one record ---- *)
   Lemma step_total s r : Permutation (total (step origin s r)) (total s ++ accepted_step origin s r).
   Proof.
-    destruct r as [pid ppid tid ptid ts | pid tid ts | pid tid name ex ts | pid tid ts | pid tid]; cbn [step accepted_step]; rewrite ?app_nil_r.
+    destruct r as [pid ppid tid ptid ts | pid tid ts | pid tid name ex ts | pid tid ts | pid tid | pid tid]; cbn [step accepted_step]; rewrite ?app_nil_r.
     - (* fork *)
       destruct (get_by_pid s ppid) as [s1 parent] eqn:E1. destruct (get_by_pid_spec _ _ _ _ E1) as [A1 [A2 _]].
       destruct (negb (pid =? ppid)).
@@ -220,6 +220,11 @@ Section Proofs.
       destruct (cur_time s =? origin); [rewrite A2; reflexivity|].
       destruct (get_thread_by_tid s1 pid p tid) as [[s2 p2] t] eqn:E2.
       destruct (get_thread_by_tid_spec _ _ _ _ _ _ _ A1 E2) as [_ [B2 _]]. cbn [fst]. rewrite B2, A2. reflexivity.
+    - (* context switch *)
+      destruct (tid =? 0); [reflexivity|].
+      destruct (get_by_pid s pid) as [s1 p] eqn:E1. destruct (get_by_pid_spec _ _ _ _ E1) as [A1 [A2 _]].
+      destruct (get_thread_by_tid s1 pid p tid) as [[s2 p2] t] eqn:E2.
+      destruct (get_thread_by_tid_spec _ _ _ _ _ _ _ A1 E2) as [_ [B2 _]]. cbn [fst]. rewrite B2, A2. reflexivity.
   Qed.
 
   Lemma run_total rs : forall s, Permutation (total (fold_left (step origin) rs s)) (total s ++ accepted origin rs s).
@@ -239,7 +244,7 @@ Section Accepted.
     exists pid tid ts, In (RSample pid tid ts) rs /\ tid <> 0 /\ t = ts - origin.
   Proof.
     induction rs as [|r rs IH]; intros s h t H; [destruct H|]. cbn [accepted] in H. apply in_app_or in H. destruct H as [H|H].
-    - destruct r as [| | |pid tid ts|]; cbn [accepted_step] in H; try destruct H.
+    - destruct r as [| | |pid tid ts| |]; cbn [accepted_step] in H; try destruct H.
       destruct (tid =? 0) eqn:E0; [destruct H|].
       destruct (get_by_pid _ pid) as [s1 p]. destruct (get_thread_by_tid s1 pid p tid) as [[s2 p2] th].
       destruct (match lt_last th with Some l => l =? ts | None => false end); [destruct H|].
